@@ -80,11 +80,6 @@ package graphql
 
 // ---- planned field resolution (C04, C20, C06) -------------------------------------
 
-//@ func getArgumentValues
-//@   trusted
-//@   assigns nothing
-//@   ensures result != nil && fresh(result)
-
 //@ func handleExtensionsResolveFieldDidStart
 //@   trusted
 //@   assigns nothing
@@ -850,9 +845,63 @@ package graphql
 
 // ---- mutations force deferred values depth-first; queries breadth-first (C13) ----
 
+// ---- variable coercion (C05): a variable is coerced only after it was found valid for its type; an
+// invalid or uncoercible one is answered with an error; every definition gets exactly its own input ----
+
 //@ func getVariableValues
+//@   props C05
+//@   nosafety
+//@   at call getVariableValue: assert arg0 == schema && arg1 == defAST && arg2 == inputs[defAST.Variable.Name.Value]
+//@   loop 1 ensures calls("getVariableValue") == atloop(1, calls("getVariableValue")) + 1 ==> lastresult("getVariableValue", 1) == nil && has(values, defAST.Variable.Name.Value) && values[defAST.Variable.Name.Value] == lastresult("getVariableValue")
+//@   at return: assert calls("getVariableValue") > 0 && lastresult("getVariableValue", 1) != nil ==> result1 == lastresult("getVariableValue", 1)
+//@   at return: assert result1 == nil || (calls("getVariableValue") > 0 && result1 == lastresult("getVariableValue", 1))
+
+//@ func getVariableValue
+//@   props C05
+//@   nosafety
+//@   requires definitionAST != nil && definitionAST.Variable != nil && definitionAST.Variable.Name != nil
+//@   at call typeFromAST: assert arg0 == schema && arg1 == definitionAST.Type
+//@   at call isValidInputValue: assert arg0 == input && arg1 == lastresult("typeFromAST") && lastresult("typeFromAST", 1) == nil
+//@   at call coerceValue: assert arg0 == lastresult("typeFromAST") && arg1 == input && calls("isValidInputValue") == 1 && lastresult("isValidInputValue")
+//@   at call valueFromAST: assert arg0 == definitionAST.DefaultValue && arg1 == lastresult("typeFromAST") && arg2 == nil && isNullish_0(input) && calls("isValidInputValue") == 1 && lastresult("isValidInputValue")
+//@   ensures calls("isValidInputValue") == 0 ==> result1 != nil
+//@   ensures calls("isValidInputValue") == 1 && !lastresult("isValidInputValue") ==> result1 != nil
+//@   ensures calls("isValidInputValue") == 1 && lastresult("isValidInputValue") ==> result1 == nil
+//@   ensures calls("coerceValue") == 1 ==> result1 == nil && result0 == lastresult("coerceValue")
+//@   ensures calls("valueFromAST") == 1 ==> result1 == nil && result0 == lastresult("valueFromAST")
+//@   ensures result1 == nil ==> calls("coerceValue") + calls("valueFromAST") == 1
+//@   ensures result1 == nil && !isNullish_0(input) ==> calls("coerceValue") == 1
+//@   ensures result1 == nil && isNullish_0(input) && definitionAST.DefaultValue != nil ==> calls("valueFromAST") == 1
+//@ func IsInputType
 //@   trusted
+//@   functional
 //@   assigns nothing
+
+// coerceValue (C05): null stays null; a non-null wrapper is transparent; a single value for a list type
+// becomes a list of one; every input field is coerced against its own type from its own entry, gets its
+// default exactly when the coerced value is null, and is present exactly when the outcome is not null;
+// a scalar / enum is what its ParseValue yields (null when that is null).
+//@ func coerceValue
+//@   props C05
+//@   nosafety
+//@   assigns nothing
+//@   ensures isNullish_0(value) ==> result == nil
+//@   at call coerceValue#1: assert arg0 == as(old(ttype), "*graphql.NonNull").OfType && arg1 == value
+//@   ensures !isNullish_0(value) && typeis(ttype, "*graphql.NonNull") ==> calls("coerceValue") == 1 && result == lastresult("coerceValue")
+//@   at call coerceValue#2: assert arg0 == as(old(ttype), "*graphql.List").OfType
+//@   at call coerceValue#3: assert arg0 == as(old(ttype), "*graphql.List").OfType && arg1 == value
+//@   ensures !isNullish_0(value) && typeis(ttype, "*graphql.List") ==> typeis(result, "[]interface{}")
+//@   loop 1 invariant len(values) == i && i >= 0 && fresh(values)
+//@   loop 2 invariant fresh(obj)
+//@   loop 1 ensures len(values) == atloop(1, len(values)) + 1 && values[len(values)-1] == lastresult("coerceValue")
+//@   at call coerceValue#4: assert arg0 == field.Type && arg1 == valueMap[name]
+//@   ensures !isNullish_0(value) && typeis(ttype, "*graphql.InputObject") ==> typeis(result, "map[string]interface{}")
+//@   loop 2 ensures calls("coerceValue") == atloop(2, calls("coerceValue")) + 1
+//@   loop 2 ensures !isNullish_0(lastresult("coerceValue")) ==> has(obj, name) && obj[name] == lastresult("coerceValue")
+//@   loop 2 ensures isNullish_0(lastresult("coerceValue")) && !isNullish_0(field.DefaultValue) ==> has(obj, name) && obj[name] == field.DefaultValue
+//@   loop 2 ensures isNullish_0(lastresult("coerceValue")) && isNullish_0(field.DefaultValue) ==> has(obj, name) == heapatloop(2, has(obj, name))
+//@   ensures !isNullish_0(value) && (typeis(ttype, "*graphql.Scalar") || typeis(ttype, "*graphql.Enum")) ==> calls("ParseValue") == 1 && (isNullish_0(lastresult("ParseValue")) ==> result == nil) && (!isNullish_0(lastresult("ParseValue")) ==> result == lastresult("ParseValue"))
+//@   at call ParseValue: assert arg1 == value
 
 //@ func ExecutePlan$2
 //@   props C13 C20 C05
@@ -864,13 +913,42 @@ package graphql
 
 // ---- order pinning (C12): messages are produced from SORTED name lists, never in map order ----
 
+// C05: valid exactly when there are no messages; null is invalid exactly for a non-null type; a non-null
+// wrapper and a single value for a list type are judged as the wrapped type; a non-object for an input
+// object is invalid; every provided field that is not defined and every defined field whose own entry
+// (absent: null) is invalid for its own type adds at least one message; a scalar / enum is valid exactly
+// when its ParseValue yields a value.
 //@ func isValidInputValue
-//@   props C12
+//@   props C12 C05
 //@   nosafety
-//@   orderfree
-//@   opt invoke.ParseValue=pure
-//@   loop 5 invariant sortedflag(valueMapFieldNames)
-//@   loop 6 invariant sortedflag(fieldNames)
+//@   assigns nothing
+//@   orderfree[C12]
+//@   loop[C12] 5 invariant sortedflag(valueMapFieldNames)
+//@   loop[C12] 6 invariant sortedflag(fieldNames)
+//@   ensures[C05] result0 <==> len(result1) == 0
+//@   ensures[C05] isNullish_0(value) ==> (result0 <==> !typeis(ttype, "*graphql.NonNull"))
+//@   at[C05] call isValidInputValue#1: assert arg0 == value && arg1 == as(old(ttype), "*graphql.NonNull").OfType
+//@   ensures[C05] !isNullish_0(value) && typeis(ttype, "*graphql.NonNull") ==> calls("isValidInputValue") == 1 && result0 == lastresult("isValidInputValue")
+//@   at[C05] call isValidInputValue#2: assert arg1 == as(old(ttype), "*graphql.List").OfType
+//@   loop[C05] 1 invariant fresh(messagesReduce)
+//@   loop[C05] 2 invariant fresh(messagesReduce) && len(messagesReduce) == atloop(1, len(messagesReduce)) + rangeindex + 1 && rangeindex + 1 <= len(messages)
+//@   loop[C05] 1 ensures len(messagesReduce) == atloop(1, len(messagesReduce)) + len(lastresult("isValidInputValue", 1))
+//@   at[C05] call isValidInputValue#3: assert arg0 == value && arg1 == as(old(ttype), "*graphql.List").OfType
+//@   ensures[C05] !isNullish_0(value) && typeis(ttype, "*graphql.InputObject") && !typeis(value, "map[string]interface{}") ==> !result0
+//@   loop[C05] 3 invariant fresh(fieldNames)
+//@   loop[C05] 4 invariant fresh(valueMapFieldNames)
+//@   loop[C05] 5 invariant fresh(messagesReduce)
+//@   loop[C05] 5 invariant rangeindex + 1 <= len(valueMapFieldNames) && (forall j in 0..rangeindex+1: has(fields, valueMapFieldNames[j]) || len(messagesReduce) > 0)
+//@   loop[C05] 6 invariant forall j in 0..len(valueMapFieldNames): has(fields, valueMapFieldNames[j]) || len(messagesReduce) > 0
+//@   loop[C05] 7 invariant forall j in 0..len(valueMapFieldNames): has(fields, valueMapFieldNames[j]) || len(messagesReduce) > 0
+//@   loop[C05] 5 ensures !has(fields, fieldName) ==> len(messagesReduce) == atloop(5, len(messagesReduce)) + 1
+//@   loop[C05] 5 ensures has(fields, fieldName) ==> len(messagesReduce) == atloop(5, len(messagesReduce))
+//@   at[C05] call isValidInputValue#4: assert arg0 == valueMap[fieldName] && arg1 == fields[fieldName].Type
+//@   loop[C05] 6 invariant fresh(messagesReduce)
+//@   loop[C05] 7 invariant fresh(messagesReduce) && len(messagesReduce) == atloop(6, len(messagesReduce)) + rangeindex + 1 && rangeindex + 1 <= len(messages)
+//@   loop[C05] 6 ensures calls("isValidInputValue") == atloop(6, calls("isValidInputValue")) + 1 && len(messagesReduce) == atloop(6, len(messagesReduce)) + len(lastresult("isValidInputValue", 1))
+//@   ensures[C05] !isNullish_0(value) && (typeis(ttype, "*graphql.Scalar") || typeis(ttype, "*graphql.Enum")) ==> calls("ParseValue") == 1 && (result0 <==> !isNullish_0(lastresult("ParseValue")))
+//@   at[C05] call ParseValue: assert arg1 == value
 
 // isValidLiteralValue appends its messages in loop order: every emitting loop must iterate in a
 // defined order (loops: 1 list values, 2 messages, 3 provided fields, 4 collects the field names, 5 defined fields in sorted order, 6 messages).
@@ -983,17 +1061,90 @@ package graphql
 //@   nosafety
 //@   assigns nothing
 //@ func Enum.ParseValue
-//@   props C07
+//@   props C07 C05
 //@   nosafety
 //@   assigns nothing
+//@   ensures[C05] !typeis(value, "string") && !typeis(value, "*string") ==> result == nil
+//@   ensures[C05] typeis(value, "string") && !has(gt.nameLookup, strval(value)) ==> result == nil
+//@   ensures[C05] typeis(value, "string") && has(gt.nameLookup, strval(value)) && gt.nameLookup[strval(value)] != nil ==> result == gt.nameLookup[strval(value)].Value
 //@ func Enum.ParseLiteral
-//@   props C07
+//@   props C07 C05
 //@   nosafety
 //@   assigns nothing
+//@   ensures[C05] !typeis(valueAST, "*ast.EnumValue") ==> result == nil
+//@   ensures[C05] typeis(valueAST, "*ast.EnumValue") && as(valueAST, "*ast.EnumValue") != nil && !has(gt.nameLookup, as(valueAST, "*ast.EnumValue").Value) ==> result == nil
+//@   ensures[C05] typeis(valueAST, "*ast.EnumValue") && as(valueAST, "*ast.EnumValue") != nil && has(gt.nameLookup, as(valueAST, "*ast.EnumValue").Value) && gt.nameLookup[as(valueAST, "*ast.EnumValue").Value] != nil ==> result == gt.nameLookup[as(valueAST, "*ast.EnumValue").Value].Value
+// a scalar hands the value / the literal to its own parse function, and yields what that yields
+//@ func Scalar.ParseValue
+//@   props C05
+//@   nosafety
+//@   opt callback.ParseValue=pure
+//@   assigns nothing
+//@   at call ParseValue: assert arg0 == value
+//@   ensures st.scalarConfig.ParseValue == nil ==> result == value
+//@   ensures st.scalarConfig.ParseValue != nil ==> calls("ParseValue") == 1 && result == lastresult("ParseValue")
+//@ func Scalar.ParseLiteral
+//@   props C05
+//@   nosafety
+//@   opt callback.ParseLiteral=pure
+//@   assigns nothing
+//@   at call ParseLiteral: assert arg0 == valueAST
+//@   ensures st.scalarConfig.ParseLiteral == nil ==> result == nil
+//@   ensures st.scalarConfig.ParseLiteral != nil ==> calls("ParseLiteral") == 1 && result == lastresult("ParseLiteral")
 //@ func Enum.defineEnumValues
 //@   props C12 C10
 //@   nosafety
 //@   orderfree
+
+// valueFromAST (C05): a variable reference is the variable's (already coerced) value; otherwise the same
+// shape as coerceValue over literals: transparent non-null, list-of-one wrapping, every item of a list
+// literal against the item type, every input field from its own literal or else its default, present
+// exactly when the outcome is not null; scalars and enums through ParseLiteral.
+//@ func valueFromAST
+//@   props C05
+//@   nosafety
+//@   assigns nothing
+//@   ensures valueAST == nil ==> result == nil
+//@   ensures typeis(valueAST, "*ast.Variable") && as(valueAST, "*ast.Variable") != nil && as(valueAST, "*ast.Variable").Name != nil && variables != nil ==> result == variables[as(valueAST, "*ast.Variable").Name.Value]
+//@   ensures typeis(valueAST, "*ast.Variable") && as(valueAST, "*ast.Variable") != nil && (as(valueAST, "*ast.Variable").Name == nil || variables == nil) ==> result == nil
+//@   at call valueFromAST#1: assert arg0 == old(valueAST) && arg1 == as(old(ttype), "*graphql.NonNull").OfType && arg2 == variables
+//@   ensures valueAST != nil && !typeis(valueAST, "*ast.Variable") && typeis(ttype, "*graphql.NonNull") ==> calls("valueFromAST") == 1 && result == lastresult("valueFromAST")
+//@   at call valueFromAST#2: assert arg0 == itemAST && arg1 == as(old(ttype), "*graphql.List").OfType && arg2 == variables
+//@   loop 1 invariant fresh(values)
+//@   loop 2 invariant fresh(fieldASTs)
+//@   loop 3 invariant fresh(obj)
+//@   loop 1 ensures len(values) == atloop(1, len(values)) + 1 && values[len(values)-1] == lastresult("valueFromAST")
+//@   at call valueFromAST#3: assert arg0 == old(valueAST) && arg1 == as(old(ttype), "*graphql.List").OfType && arg2 == variables
+//@   ensures valueAST != nil && !typeis(valueAST, "*ast.Variable") && typeis(ttype, "*graphql.List") ==> typeis(result, "[]interface{}")
+//@   ensures valueAST != nil && !typeis(valueAST, "*ast.Variable") && typeis(ttype, "*graphql.List") && !typeis(valueAST, "*ast.ListValue") ==> calls("valueFromAST") == 1 && len(as(result, "[]interface{}")) == 1 && as(result, "[]interface{}")[0] == lastresult("valueFromAST")
+//@   ensures valueAST != nil && !typeis(valueAST, "*ast.Variable") && typeis(ttype, "*graphql.InputObject") && !typeis(valueAST, "*ast.ObjectValue") ==> result == nil
+//@   ensures valueAST != nil && !typeis(valueAST, "*ast.Variable") && typeis(ttype, "*graphql.InputObject") && typeis(valueAST, "*ast.ObjectValue") ==> typeis(result, "map[string]interface{}")
+//@   at call valueFromAST#4: assert has(fieldASTs, name) && arg0 == fieldASTs[name].Value && arg1 == field.Type && arg2 == variables
+//@   loop 3 ensures has(fieldASTs, name) ==> calls("valueFromAST") == atloop(3, calls("valueFromAST")) + 1
+//@   loop 3 ensures calls("valueFromAST") == atloop(3, calls("valueFromAST")) + 1 && !isNullish_0(lastresult("valueFromAST")) ==> has(obj, name) && obj[name] == lastresult("valueFromAST")
+//@   loop 3 ensures calls("valueFromAST") == atloop(3, calls("valueFromAST")) + 1 && isNullish_0(lastresult("valueFromAST")) ==> has(obj, name) == heapatloop(3, has(obj, name))
+//@   loop 3 ensures !has(fieldASTs, name) ==> calls("valueFromAST") == atloop(3, calls("valueFromAST"))
+//@   loop 3 ensures !has(fieldASTs, name) && !isNullish_0(field.DefaultValue) ==> has(obj, name) && obj[name] == field.DefaultValue
+//@   loop 3 ensures !has(fieldASTs, name) && isNullish_0(field.DefaultValue) ==> has(obj, name) == heapatloop(3, has(obj, name))
+//@   ensures valueAST != nil && !typeis(valueAST, "*ast.Variable") && (typeis(ttype, "*graphql.Scalar") || typeis(ttype, "*graphql.Enum")) ==> calls("ParseLiteral") == 1 && result == lastresult("ParseLiteral")
+//@   at call ParseLiteral: assert arg1 == old(valueAST)
+
+// getArgumentValues (C05): every defined argument is evaluated from the literal written for ITS name
+// (none: null) against ITS type with the request's variables; its default applies exactly when that is
+// null; the argument is present exactly when the outcome is not null.
+//@ func getArgumentValues
+//@   props C05 C06 C20
+//@   nosafety
+//@   assigns nothing
+//@   ensures result != nil && fresh(result)
+//@   loop 1 invariant fresh(argASTMap)
+//@   loop 2 invariant fresh(results) && fresh(argASTMap)
+//@   at call valueFromAST: assert arg1 == argDef.Type && arg2 == variableValues && (has(argASTMap, argDef.PrivateName) ==> arg0 == argASTMap[argDef.PrivateName].Value) && (!has(argASTMap, argDef.PrivateName) ==> arg0 == nil)
+//@   loop 1 ensures argAST.Name != nil ==> has(argASTMap, argAST.Name.Value) && argASTMap[argAST.Name.Value] == argAST
+//@   loop 2 ensures calls("valueFromAST") == atloop(2, calls("valueFromAST")) + 1
+//@   loop 2 ensures !isNullish_0(lastresult("valueFromAST")) ==> has(results, argDef.PrivateName) && results[argDef.PrivateName] == lastresult("valueFromAST")
+//@   loop 2 ensures isNullish_0(lastresult("valueFromAST")) && !isNullish_0(argDef.DefaultValue) ==> has(results, argDef.PrivateName) && results[argDef.PrivateName] == argDef.DefaultValue
+//@   loop 2 ensures isNullish_0(lastresult("valueFromAST")) && isNullish_0(argDef.DefaultValue) ==> has(results, argDef.PrivateName) == heapatloop(2, has(results, argDef.PrivateName))
 
 // ---- Int literals (C05): the literal form obeys the same 32-bit range as coerceInt ----
 //@ func after:scalars.go:Int can represent values between -(2^31) and 2^31 - 1
